@@ -29,12 +29,24 @@ func Bubble(t *testing.T, rc *core.RunCtx, body func()) {
 					n := runtime.Stack(buf, true)
 					var keep []string
 					for _, g := range strings.Split(string(buf[:n]), "\n\n") {
+						// A goroutine leak of the btcd peer package (not
+						// the code under test): the stall handler drains
+						// its control channel and exits, the input handler
+						// then blocks for ever on its next send to it.
+						if strings.Contains(g, "chan send") && strings.Contains(g, "btcd/peer.(*Peer).inHandler") &&
+							!strings.Contains(g, "lightninglabs/neutrino") {
+							rc.Probe("leftover_btcd_peer_inhandler_blocked_on_stall_control")
+							continue
+						}
 						if strings.Contains(g, "synctest bubble") {
 							if len(g) > 1500 {
 								g = g[:1500]
 							}
 							keep = append(keep, g)
 						}
+					}
+					if len(keep) == 0 {
+						return
 					}
 					if len(keep) > 8 {
 						keep = keep[:8]
